@@ -567,7 +567,8 @@ OWN = {
         "external_scanner_payload": "ts_parser_set_language(self, NULL)", "old_tree": "ts_subtree_release(&self->tree_pool, self->old_tree)",
         "included_range_differences": "ts_current_free((&self->included_range_differences)->contents)",
         "dot_graph_file": None, "accept_count": None, "operation_count": None, "parse_options": None, "parse_state": None, "included_range_difference_index": None,
-        "has_scanner_error": None, "canceled_balancing": None, "has_error": None},
+        "has_scanner_error": None, "canceled_balancing": None, "has_error": None,
+        "resume_position": None, "resume_last_position": None, "resume_version": None},
     ("TSQuery", "ts_query_delete"): {
         "captures": "symbol_table_delete(&self->captures)", "predicate_values": "symbol_table_delete(&self->predicate_values)",
         "capture_quantifiers": "ts_current_free((&self->capture_quantifiers)->contents)", "steps": "ts_current_free((&self->steps)->contents)", "pattern_map": "ts_current_free((&self->pattern_map)->contents)",
